@@ -17,8 +17,9 @@ import traceback
 from pathlib import Path
 
 VERIF = Path(__file__).resolve().parent.parent
-EVIDENCE_DIR = VERIF / "evidence"
-REPLAY_DIR = VERIF / "replays"
+_OUT = Path(os.environ["VERIF_OUT_DIR"]) if os.environ.get("VERIF_OUT_DIR") else VERIF
+EVIDENCE_DIR = _OUT / "evidence"
+REPLAY_DIR = _OUT / "replays"
 FINDINGS_FILE = VERIF / "known_findings.json"
 
 LEVELS = ("exploration", "fault_enumeration", "model_checking", "proof", "translation_validation", "other")
@@ -98,7 +99,7 @@ class Ctx:
                 return
         if any(v["key"] == key for v in self.violations):
             return
-        REPLAY_DIR.mkdir(exist_ok=True)
+        REPLAY_DIR.mkdir(parents=True, exist_ok=True)
         path = REPLAY_DIR / f"{self.pid}_{len(self.violations):03d}.json"
         rec = {"property": self.pid, "key": key, "what": what, "tier": self.tier, "seed": self.seed,
                "payload": payload}
@@ -111,7 +112,7 @@ class Ctx:
 
     # ------------------------------------------------------------------ evidence
     def write_evidence(self) -> None:
-        EVIDENCE_DIR.mkdir(exist_ok=True)
+        EVIDENCE_DIR.mkdir(parents=True, exist_ok=True)
         cov: dict = {
             "evaluations": int(self.evaluations),
             "distinct_nontrivial": len(self.distinct),
